@@ -16,10 +16,10 @@ def random_case(prop, rng, tier):
             pass
     w = rng.randrange(len(u.wbs))
     members = [u.u(t) for t in u.wbs[w].tasks]
-    mode = 'clone' if rng.random() < 0.5 or not members else 'subtree'
+    mode = 'clone' if rng.random() < 0.5 or (not members and rng.random() < 0.7) else 'subtree'
     roots = None
     if mode == 'subtree':
-        k = rng.randrange(1, min(3, len(members)) + 1)
+        k = rng.randrange(1, min(3, len(members)) + 1) if members and rng.random() < 0.9 else 0      # (one subtree in ten: the empty selection)
         roots = [rng.choice(members) for _ in range(k)] if rng.random() < 0.3 else rng.sample(members, k)
     after = None
     if rng.random() < 0.6:
@@ -27,7 +27,7 @@ def random_case(prop, rng, tier):
     case = {'graph': g, 'w': w, 'mode': mode, 'roots': roots, 'attrs': rng.random() < 0.5, 'after': after}
     if mode == 'subtree':
         # the selection is "Iterable[Task] or a Task": lists, tuples, one-shot iterables, a task list of the WBS, a single task
-        case['selKind'] = rng.choice(['list', 'list', 'tuple', 'gen', 'iter', 'filter', 'tasklist'] + (['single'] if len(roots) == 1 else []))
+        case['selKind'] = rng.choice(['list', 'list', 'tuple', 'gen', 'iter', 'filter', 'tasklist'] + (['single'] if roots and len(roots) == 1 else []))
     return case
 
 
